@@ -1,7 +1,7 @@
 # Per-property configuration of bin/vcheck. One entry per claimed property.
 CHECKS = {}
 NOT_APPLICABLE = {}   # property id -> reason (only for properties that are not claimed)
-HOOK_COMMITS = ["591d0aa", "cd8c611", "81459e8", "b3ade5a", "de6d637"]     # /repo commits that add build-tag-guarded hooks
+HOOK_COMMITS = ["591d0aa", "cd8c611", "81459e8", "b3ade5a", "5b8c4ec"]     # /repo commits that add build-tag-guarded hooks
 MANIFEST_NOTES = ("Every check is `bin/vcheck <id> quick|thorough`; VERIF_SEED selects the seeded case lists. "
                   "Verdicts are three-valued (VIOLATION / held / INCONCLUSIVE); known findings are in known_findings.json.")
 
@@ -187,7 +187,8 @@ CHECKS["C11"] = {
 
 CHECKS["C03"] = {
     "mem_gb": {"quick": 0, "thorough": 0},
-    "pkg": "./c03", "run": "^TestC03$", "level": "fault_enumeration",
+    "pkg": "./c03", "run": "^TestC03", "level": "fault_enumeration",
+    "aux": [{"pkg": "github.com/marekgalovic/anndb/cmd/anndb", "name": "anndb", "env": "VERIF_ANNDB_BIN", "tags": "verif"}],
     "technique": "runtime monitor with fault enumeration: crash armed at every durable-write boundary (before/after each Save / snapshot install / CreateSnapshot of the raft log stores) of a seeded workload on in-process real servers, restart on the same data directory, recovered partition contents vs acknowledged-history oracle",
     "level_text": "A pilot run of the seeded workload (4 sequential per-id clients, single and batch insert/update/remove with unique version tags, forced snapshot+compaction of the partition and zero groups) counts the durable writes K of the victim node; the workload is then re-run once for every k in 1..K and both sides with a crash armed there (1 node / 1 replica: all boundaries; 3 nodes / 3 replicas with a minority crash while clients continue: 20 sampled boundaries quick, all thorough). After restart the recovered contents of every replica must be the acknowledged state of every id or that plus the one open operation, with nothing never submitted; the workload then continues and is compared again.",
     "level_note": "Process-crash model: the crashing node's ready-loops end at the armed boundary (other groups of the node at their next event), nothing is written afterwards, Badger is then closed and reopened; power loss / torn writes inside Badger are not modelled. Goroutine interleaving varies between the pilot and the armed runs, so a boundary index may denote a different write; the evidence lists the distinct boundary kinds actually hit.",
